@@ -342,3 +342,23 @@ Proof.
     + rewrite cc_unadvertised in H by exact Ha. discriminate.
 Qed.
 End Top.
+
+(* ---------- transcript of the certificate flight ---------- *)
+Definition valid_flight (f : list fmsg) : bool :=
+  match f with
+  | [FCert] | [FCompressed] | [FCertReq; FCert] | [FCertReq; FCompressed] => true
+  | _ => false
+  end.
+
+(* every valid certificate flight enters the client's transcript exactly as the server sent (and hashed) it *)
+Theorem flight_transcript_in_order f : valid_flight f = true -> client_cert_flight f true = Ok f.
+Proof.
+  destruct f as [|[| |] [|[| |] [|? ?]]]; cbn; intros H; try discriminate; reflexivity.
+Qed.
+
+Theorem flight_compressed_refused f : valid_flight f = true -> In FCompressed f ->
+  client_cert_flight f false = Err alertBadCertificate.
+Proof.
+  destruct f as [|[| |] [|[| |] [|? ?]]]; cbn; intros H Hin; try discriminate; try reflexivity;
+    repeat (destruct Hin as [Hin | Hin]; try discriminate); try contradiction.
+Qed.
